@@ -13,7 +13,8 @@ META = {
              ">= ByzantineMajority of that set; the summary the commit decision reads is the recomputation from the view's own proofs. "
              "Monitored on every run against the real mirror (certificate recomputed from the observed stores with the chain's sets). "
              "Partial: the hand-off to the state machine is C08's model; sums of powers are modelled with their uint64 wrap; concurrent "
-             "callers are outside the model.",
+             "callers are outside the model. The generated histories include crashes after every store write, restarts, and a "
+             "fork attempt by a Byzantine majority (template 9).",
     "note": "Trusted: Coq kernel; ideal signatures; correspondence harness on the real mirror; translator for thresholds and "
             "FindView. No axioms.",
     "design_ref": "DESIGN.md 4 (C01/C04/C05/C07)",
